@@ -315,11 +315,36 @@ def run(ck):
         def relevant(g_):
             return g_.base.startswith(CONN) and g_.base not in HANDLERS and any(settle(x) or is_entry_reset(x) or is_done(x) for x in g_.events("call"))
         step = lib.inlined_step(prog, step, relevant)
-        exits, _ = cfg.run_automaton(fn, (None, False, False), step, start=inside)
+        # handleResponsePacket settles the request only once a complete response has been parsed: a return that waits for more bytes is
+        # not a lost request.  (Whether the test of requestEntry lies inside the `parse() == Done` arm or in front of everything, as an
+        # early return, makes no difference: the obligation starts where both are known.)
+        done_edges = set()
+        if name == "handleResponsePacket":
+            for pc_ in ("Pistache::Http::Private::ParserBase::parse", "Pistache::Http::Private::ParserImpl::parse"):
+                done_edges |= set(lib.value_edges(fn, pc_, "e:Pistache::Http::Private::State::Done"))
+        complete0 = True
+        if done_edges:
+            ins_ev = [e_ for e_ in fn.blocks[inside].elems][:1]
+            complete0 = bool(ins_ev) and any(cfg.edge_dominates(fn, b_, k_, ins_ev[0]) for b_, k_ in done_edges)
+        user_step = step
+
+        def step_c(st, ev):
+            r_ = user_step(st[0], ev)
+            if r_ is None:
+                return None
+            if isinstance(r_, list):
+                return [(x_, st[1]) for x_ in r_]
+            return (r_, st[1])
+
+        def edge_c(st, blk, k, succ):
+            return (st[0], True) if (blk.id, k) in done_edges else st
+        exits, _ = cfg.run_automaton(fn, ((None, False, False), complete0), step_c, edge=edge_c, start=inside)
         for x in exits:
             if x.kind == "throw":
                 continue
-            settled, reset, done = x.state
+            (settled, reset, done), complete = x.state
+            if not settled and not complete:
+                continue        # still waiting for the rest of the response
             if not settled:
                 problems.append("a path through the guarded block leaves the request unsettled")
             elif not reset:
